@@ -46,22 +46,49 @@ REC = {}
 
 
 class SchedExecutor:
-    """ThreadPoolExecutor stand-in: runs the submitted tasks in an arbitrary order (ORDER) and yields their results
-    in submission order (the documented contract of Executor.map); records its constructor arguments."""
+    """ThreadPoolExecutor stand-in.  Tasks complete in an arbitrary order (ORDER, a permutation of submission
+    indices).  `map` yields results in submission order (the documented contract of Executor.map); `submit`
+    returns real Future objects that are resolved, in ORDER, when the pool is shut down / left or when
+    `as_completed` / `wait` (patched in base_codemod's namespace) ask for them - so code that collects results in
+    completion order really sees the arbitrary order.  Constructor arguments are recorded."""
 
     ORDER: List[int] = [0, 1, 2]
+    current = None
 
     def __init__(self, *a, **k):
         REC["ctor"] = (a, k)
+        self.pending = []
+        SchedExecutor.current = self
 
     def __enter__(self):
         return self
 
     def __exit__(self, *a):
+        self.run_pending()
         return False
 
-    def shutdown(self, wait=True):
-        pass
+    def shutdown(self, wait=True, **k):
+        self.run_pending()
+
+    def run_pending(self):
+        done = []
+        order = [j for j in SchedExecutor.ORDER if j < len(self.pending)] + [j for j in range(len(self.pending)) if j not in SchedExecutor.ORDER]
+        for j in order:
+            fut, fn, a, k = self.pending[j]
+            if not fut.done():
+                try:
+                    fut.set_result(fn(*a, **k))
+                except Exception as e:  # noqa
+                    fut.set_exception(e)
+                done.append(fut)
+        return done
+
+    def submit(self, fn, *a, **k):
+        from concurrent.futures import Future
+
+        fut = Future()
+        self.pending.append((fut, fn, a, k))
+        return fut
 
     def map(self, fn, items):
         items = list(items)
@@ -69,6 +96,34 @@ class SchedExecutor:
         for i in [j for j in SchedExecutor.ORDER if j < len(items)]:
             results[i] = fn(items[i])
         return iter(results)
+
+
+def sched_as_completed(futures, timeout=None):
+    """concurrent.futures.as_completed for SchedExecutor futures: completion order = ORDER."""
+    futures = list(futures)
+    ex = SchedExecutor.current
+    done_now = ex.run_pending() if ex is not None else []
+    seen = []
+    for f in done_now:
+        if f in futures:
+            seen.append(f)
+    for f in futures:
+        if f not in seen:
+            seen.append(f)
+    return iter(seen)
+
+
+def sched_wait(futures, timeout=None, return_when=None):
+    futures = list(futures)
+    if SchedExecutor.current is not None:
+        SchedExecutor.current.run_pending()
+    return set(futures), set()
+
+
+def install_executor(module):
+    module.ThreadPoolExecutor = SchedExecutor
+    module.as_completed = sched_as_completed
+    module.wait = sched_wait
 
 
 class _Codemod(FindAndFixCodemod):
@@ -88,30 +143,37 @@ class T:
         return cst.parse_module(tree.code.replace("a = 1", "a = 2"))
 
 
-def _run_sched(n: int, w: int, order: List[int]):
-    files = [FakePath(skel.SRC_TEXT.encode() + b"# f%d\n" % i, rel="f%d.py" % i) for i in range(n)]
+def _run_sched(n: int, w: int, order: List[int], bad=(False, False, False)):
+    files = [FakePath((b"def (:\n" if bad[i] else skel.SRC_TEXT.encode() + b"# f%d\n" % i), rel="f%d.py" % i) for i in range(n)]
     with NoTracing():
         ctx = CodemodExecutionContext(Path("/d"), False, False, None, None, None, [], [], {}, w)
     ctx.__dict__["find_and_fix_paths"] = list(files)
     cm = _Codemod(metadata=Metadata(name="stub", summary="s", review_guidance=ReviewGuidance.MERGE_WITHOUT_REVIEW, description="d"), transformer=LibcstTransformerPipeline(T))
-    bc.ThreadPoolExecutor = SchedExecutor
+    install_executor(bc)
     SchedExecutor.ORDER = order
     REC.clear()
     cm.apply(ctx)
     a, kw = REC["ctor"]
     pool = kw.get("max_workers", a[0] if a else None)
-    return [(c.path, c.diff) for c in ctx.get_changesets(cm.id)], [f.content for f in files], pool
+    report = ([(c.path, c.diff) for c in ctx.get_changesets(cm.id)], [str(p) for p in ctx.get_failures(cm.id)], [(u.id, u.path) for u in ctx.get_unfixed_findings(cm.id)])
+    return report, [f.content for f in files], pool
 
 
-def scheduling(n: int, w: int, k1: int, k2: int) -> bool:
-    """BaseCodemod.apply under two arbitrary task execution orders: the aggregated changesets (content and
-    order) and every file's bytes are identical; the executor is created with at most --max-workers workers.
-    pre: 1 <= n <= 3 and 1 <= w <= 4
+def scheduling(n: int, w: int, k1: int, b0: bool, b1: bool) -> bool:
+    """BaseCodemod.apply under an arbitrary task completion order versus the in-order schedule (equality with the
+    in-order run is transitive, so any two orders agree), with a symbolic subset of unparsable files: the
+    aggregated changesets, failed files and unfixed findings (content AND order) and every file's bytes are
+    identical; the executor is created with at most --max-workers workers.
+    pre: 1 <= n <= 3 and (w == 1 or w == 3)
     post: _
     """
-    cs1, bytes1, pool1 = _run_sched(n, w, perm(k1))
-    cs2, bytes2, pool2 = _run_sched(n, w, perm(k2))
-    ok = cs1 == cs2 and bytes1 == bytes2 and [p for p, _ in cs1] == ["f%d.py" % i for i in range(n)]
+    k2 = 0
+    bad = (b0, b1, False)
+    rep1, bytes1, pool1 = _run_sched(n, w, perm(k1), bad)
+    rep2, bytes2, pool2 = _run_sched(n, w, perm(k2), bad)
+    cs1 = rep1[0]
+    ok = rep1 == rep2 and bytes1 == bytes2 and [p for p, _ in cs1] == ["f%d.py" % i for i in range(n) if not bad[i]]
+    ok = ok and rep1[1] == ["/d/f%d.py" % i for i in range(n) if bad[i]]
     ok = ok and pool1 is not None and 1 <= pool1 <= w
     return fin(ok)
 
@@ -123,14 +185,14 @@ def sibling_independence(n: int, i: int, k: int) -> bool:
     pre: 1 <= n <= 3 and 0 <= i < n
     post: _
     """
-    cs_all, bytes_all, _ = _run_sched(n, 2, perm(k))
+    (cs_all, _f, _u), bytes_all, _ = _run_sched(n, 2, perm(k))
     # the same file alone (same relative name and content)
     files = [FakePath(skel.SRC_TEXT.encode() + b"# f%d\n" % i, rel="f%d.py" % i)]
     with NoTracing():
         ctx = CodemodExecutionContext(Path("/d"), False, False, None, None, None, [], [], {}, 2)
     ctx.__dict__["find_and_fix_paths"] = list(files)
     cm = _Codemod(metadata=Metadata(name="stub", summary="s", review_guidance=ReviewGuidance.MERGE_WITHOUT_REVIEW, description="d"), transformer=LibcstTransformerPipeline(T))
-    bc.ThreadPoolExecutor = SchedExecutor
+    install_executor(bc)
     SchedExecutor.ORDER = [0, 1, 2]
     cm.apply(ctx)
     cs_one = [(c.path, c.diff) for c in ctx.get_changesets(cm.id)]
@@ -278,7 +340,7 @@ def planted_order_leak(k1: int, k2: int) -> bool:
 def warmup():
     skel.warm()
     try:
-        scheduling(3, 2, 0, 5)
+        scheduling(3, 3, 5, True, False)
     except Exception:
         pass
     sibling_independence(3, 1, 4)
@@ -304,7 +366,7 @@ SPEC = {
         "BaseParser.find_file_locations / parse",
     ],
     "bounds": {
-        "quick": "<= 3 files / entry points / manifests; every pair of the 6 permutations; worker counts 1..4; task-atomic schedules (a task runs to completion; per-file work only touches its own FileContext and file)",
+        "quick": "<= 3 files / entry points / manifests; every pair of the 6 permutations; worker counts 1 and 3; task-atomic schedules (a task runs to completion; per-file work only touches its own FileContext and file)",
         "thorough": "same",
     },
     "assumptions": [
